@@ -178,6 +178,11 @@ class FieldAnalysis:
         if depth > 4:
             return "read"
         kinds = [x[3] for x in self._sites(tgt, adt_suffix, field)]
+        # closures defined in the callee (`items.iter().for_each(|i| { self.map.remove(..); })`) act on its behalf
+        base = tgt.path[: -len("::{closure#0}")] if tgt.is_coroutine and tgt.path.endswith("::{closure#0}") else tgt.path
+        for p2, cb in self.prog.bodies.items():
+            if p2.startswith(tgt.path + "::{closure") and not cb.is_promoted:
+                kinds += [x[3] for x in self._sites(cb, adt_suffix, field)]
         for bb, t in tgt.calls():
             sub = self._callee_body(t)
             if sub is None or sub.path == tgt.path:
